@@ -238,6 +238,13 @@ def closure_probes():
     P.append(("same-name-different-levels",
               "function a(x){ return function(x2){ var x = x2 + 1; return function(){ return x; }; }; } log(a(1)(5)());"))
     # closures created in every syntactic position of a construct, and capturing every kind of loop variable
+    P.append(("catch-param-named-like-captured-var", "function f(){ var e = 0; var g = function(){ return e; }; try { throw 5; } catch (e) { return e; } } log(f());"))
+    P.append(("catch-param-closure-at-program-level", "var out = []; try { throw 7; } catch (q) { out.push(q); [1].forEach(function(){ out.push(q); }); } log(out);"))
+    P.append(("catch-param-closure-in-callback", "function f(){ var out = []; try { throw 7; } catch (q) { [1, 2].forEach(function(v){ out.push(q + v); }); } return out; } log(f());"))
+    P.append(("catch-param-named-like-param", "function f(p){ try { throw 9; } catch (p) { return p; } } log(f(1));"))
+    P.append(("catch-param-arrow-at-program-level", "var g; try { null.x; } catch (err) { g = () => err.name; } log(g());"))
+    P.append(("catch-param-nested-catch", "function f(){ try { throw 1; } catch (a) { try { throw 2; } catch (b) { return (function(){ return [a, b]; })(); } } } log(f());"))
+    P.append(("catch-param-in-loop-closures", "function f(){ var fs = []; for (var i = 0; i < 3; i++) { try { throw i * 10; } catch (e) { fs.push(function(){ return e; }); } } return fs.map(function(g){ return g(); }); } log(f());"))
     P.append(("forin-var-captured", "function f(o){ var fs = []; for (var k in o) { fs.push(function(){ return k; }); } return fs.map(function(g){ return g(); }); } log(f({a: 1, b: 2}));"))
     P.append(("forof-var-captured", "function f(o){ var fs = []; for (var k of o) { fs.push(function(){ return k; }); } return fs.map(function(g){ return g(); }); } log(f([1, 2]));"))
     P.append(("forin-predeclared-captured", "function f(o){ var k, g = function(){ return k; }; var seen = []; for (k in o) { seen.push(g()); } k = 'z'; return seen.concat(g()); } log(f({a: 1, b: 2}));"))
